@@ -189,7 +189,13 @@ CallEnd(ev) ==
                \* every touched object is well formed and owns its block
                /\ \A c \in chZ : c.live = 1 => WFZ(c, heap)
                /\ \A c \in chQ : c.live = 1 => WFZ(c.n, heap) /\ WFZ(c.d, heap)
-               /\ \A c \in chF : c.live = 1 => WFF(c, heap)
+               \* (mpf_set_prec_raw only changes the precision field: a value longer than the lowered precision stays as it is, which the manual intends --
+               \*  "an efficient way to use an mpf_t variable at different precisions during a calculation"; every LATER result must fit again)
+               \*  the same holds for a call that merely carries such a representation over: in-place mpf_neg / mpf_abs, mpf_swap)
+               /\ \A c \in chF : c.live = 1 =>
+                     (IF ev.f = "mpf_set_prec_raw" \/ (AbsI(c.sz) > c.prec + 1 /\ \E k \in 1..n : IsF(ks[k]) /\ fs[ev.a[k]].live /\ fs[ev.a[k]].prec = c.prec
+                                                                                           /\ AbsI(fs[ev.a[k]].sz) = AbsI(c.sz) /\ ZAbs(fs[ev.a[k]].v) = ZAbs(c.v))
+                      THEN WFF([c EXCEPT !.sz = 0, !.v = "0", !.exp = 0], heap) ELSE WFF(c, heap))
                \* every live variable -- reported as changed or not -- still owns a live block of its allocation after the call
                /\ tainted \/ ( /\ \A i \in DOMAIN zs1 : zs1[i].live => <<zs1[i].blk, zs1[i].al * 8>> \in heap
                                /\ \A i \in DOMAIN qs1 : qs1[i].live => <<qs1[i].n.blk, qs1[i].n.al * 8>> \in heap /\ <<qs1[i].d.blk, qs1[i].d.al * 8>> \in heap
